@@ -4,6 +4,7 @@
   Imports only the import-free model, so it links as a native executable.
 -/
 import SqlDt.Model.Serde
+import SqlDt.Spec.Munch
 open SqlDt
 
 namespace Drv
@@ -221,9 +222,27 @@ def withTy (t : Arg) (k : Ty → Res) : Res :=
 
 def dummyClock : Clock := { year := 2000, month := 1, day := 1, hour := 0, minute := 0, second := 0, usec := 0 }
 
+/-- Spec oracle mode (`--spec`): operations answered by the independent specifications of `SqlDt/Spec`. -/
+def specHandler (name : String) : Option (List Arg → Res) :=
+  match name with
+  | "F.try_new" => some fun | [p] => text p fun p => (match Spec.munch p with | .ok fs => .ok [.str (fieldsStr fs)] | .error e => .err e) | _ => .badOp
+  | "F.try_new_idx" => some fun
+    | [.bytes alpha, .int len, .int idx] =>
+      if ¬ validUtf8 alpha then .skipUtf8
+      else if alpha.isEmpty ∨ len < 0 ∨ len > 64 ∨ idx < 0 then .badArg
+      else
+        let n := alpha.length
+        let (buf, rest) := (List.range len.toNat).foldl
+          (fun (acc : Bytes × Nat) _ => (alpha.getD (acc.2 % n) 0 :: acc.1, acc.2 / n)) ([], idx.toNat)
+        if rest ≠ 0 then .badArg
+        else if ¬ validUtf8 buf then .skipUtf8
+        else (match Spec.munch buf with | .ok fs => .ok [.str (fieldsStr fs)] | .error e => .err e)
+    | _ => .badOp
+  | _ => none
+
 /-- The operation table: name → handler. -/
 def handler (spec : Bool) (name : String) : Option (List Arg → Res) :=
-  if spec then none else
+  if spec then specHandler name else
   match name with
   -- Date
   | "D.try_from_ymd" => some fun | [y, m, d] => i32 y fun y => u32 m fun m => u32 d fun d => chkInt (Date.tryFromYmd y m d) | _ => .badOp
@@ -348,6 +367,33 @@ def handler (spec : Bool) (name : String) : Option (List Arg → Res) :=
   | "OD.cmp" => some fun | [a, b] => recv .OD a fun a => recv .OD b fun b => cmpRes a b | _ => .badOp
   -- Formatter
   | "F.try_new" => some fun | [p] => text p fun p => (match Lexer.tryNew p with | .ok fs => .ok [.str (fieldsStr fs)] | .error e => .err e) | _ => .badOp
+  | "F.try_new_idx" => some fun
+    | [.bytes alpha, .int len, .int idx] =>
+      if ¬ validUtf8 alpha then .skipUtf8
+      else if alpha.isEmpty ∨ len < 0 ∨ len > 64 ∨ idx < 0 then .badArg
+      else
+        let n := alpha.length
+        let (buf, rest) := (List.range len.toNat).foldl
+          (fun (acc : Bytes × Nat) _ => (alpha.getD (acc.2 % n) 0 :: acc.1, acc.2 / n)) ([], idx.toNat)
+        if rest ≠ 0 then .badArg
+        else if ¬ validUtf8 buf then .skipUtf8
+        else (match Lexer.tryNew buf with | .ok fs => .ok [.str (fieldsStr fs)] | .error e => .err e)
+    | _ => .badOp
+  | "F.roundtrip" => some fun
+    | ty :: n :: p :: c => withTy ty fun ty => recv ty n fun n => text p fun p => clockOf c fun c =>
+        (match Lexer.tryNew p with
+         | .error e => .err e
+         | .ok fields =>
+           match Formatter.format ty n fields none with
+           | .error e => .err e
+           | .ok t =>
+             match Parser.parse ty fields t c with
+             | .error e => .ok [.bytes t, .str "parse", .str (resStr (.err e))]
+             | .ok (v2, reads) =>
+               match Formatter.format ty v2 fields none with
+               | .error e => .ok [.bytes t, .int v2, .int reads, .str "format", .str (resStr (.err e))]
+               | .ok t2 => .ok [.bytes t, .int v2, .int reads, .bytes t2])
+    | _ => .badOp
   | "F.format" => some fun
     | [ty, n, p, .int cap] => withTy ty fun ty => recv ty n fun n => text p fun p =>
         (match formatValue ty n p (if cap < 0 then none else some cap.toNat) with | .ok t => .ok [.bytes t] | .error e => .err e)
@@ -438,7 +484,7 @@ def runRange (spec : Bool) (out : IO.FS.Stream) (words : List String) : IO Unit 
 partial def loop (spec : Bool) (inp out : IO.FS.Stream) : IO Unit := do
   let line ← inp.getLine
   if line.isEmpty then return ()
-  let l := (line.dropRightWhile fun c => c == '\n' || c == '\r')
+  let l := (line.dropEndWhile fun c => c == '\n' || c == '\r').toString
   if l.isEmpty || l.startsWith "#" then
     out.putStrLn l
   else
